@@ -8,8 +8,9 @@ import (
 
 func C11(p *core.Prog, rep *core.Report) {
 	codecAgreement(p, rep)
-	cd2Header(p, rep)
-	bs, hdr := cd3Threshold(p, rep)
+	h := cd2Header(p, rep)
+	bs, hdr := cd3Threshold(p, rep, h)
+	cd3bPadPerRecord(p, rep, bs, hdr)
 	cd5Width(p, rep, bs, hdr)
 	cd7LogicalSize(p, rep)
 	chunkTypeProtocol(p, rep)
